@@ -548,4 +548,41 @@ def setsIndependent : List (Nat × IExp) → Bool
     rest.all (fun p => !readsI i p.2 && p.1 != i) && rest.all (fun p => !readsI p.1 e) &&
       setsIndependent rest
 
+
+/-! ## ORM bulk UPDATE by primary key: `session.execute(update(E), [ {pk, col: value, …}, … ])`
+
+`_BulkORMUpdate._do_post_synchronize_bulk_evaluate`: for every parameter set, the object
+with that primary key — if the identity map has one — gets the given values for the
+attributes present in its dict. -/
+
+/-- a table row together with the in-session object for it, if loaded -/
+structure Slot where
+  pk : Nat
+  db : List (Option Int)
+  sess : Option (List (Option Int) × List Nat)   -- loaded values, expired attributes
+deriving DecidableEq, Repr
+
+abbrev BulkParam := Nat × List (Nat × Option Int)   -- primary key, (column, value) pairs
+
+def applyCols (cols : List (Nat × Option Int)) (skip : List Nat) (r : List (Option Int)) : List (Option Int) :=
+  cols.foldl (fun acc p => if skip.contains p.1 then acc else setAt acc p.1 p.2) r
+
+/-- one parameter set: the UPDATE of its row, and the synchronisation of its object
+    (`if not state: continue`; `if key in dict_`) -/
+def bulkStep (p : BulkParam) (slots : List Slot) : List Slot :=
+  slots.map (fun s =>
+    if s.pk == p.1 then
+      { s with db := applyCols p.2 [] s.db,
+               sess := s.sess.map (fun o => (applyCols p.2 o.2 o.1, o.2)) }
+    else s)
+
+def bulkByPk (params : List BulkParam) (slots : List Slot) : List Slot :=
+  params.foldl (fun acc p => bulkStep p acc) slots
+
+/-- every loaded, unexpired attribute equals the database value -/
+def Slot.inSync (s : Slot) : Bool :=
+  match s.sess with
+  | none => true
+  | some o => (List.range s.db.length).all (fun c => o.2.contains c || o.1.getD c none == s.db.getD c none)
+
 end SaVerif.Eval
